@@ -76,7 +76,31 @@ pub fn gen_case(family: &str, i: u64, seed: u64, lim: &GenLimits) -> StaticCase 
         "layered" => gen::layered_family(&mut rng, 13),
         "many-components" => gen::many_components(&mut rng),
         "long-search" => {
-            if rng.pct(50) {
+            if rng.pct(34) {
+                // k two-cycles a_i <-> b_i, a self-attacking hub attacked by every a_i (sometimes by some
+                // b_i too), the hub attacking a tail of 1-2 arguments: the status of the tail is settled
+                // only by the last of 2^k preferred extensions
+                let k = rng.range(3, 6);
+                let hub = 2 * k;
+                let mut att: Vec<(usize, usize)> = Vec::new();
+                for i in 0..k {
+                    att.push((2 * i, 2 * i + 1));
+                    att.push((2 * i + 1, 2 * i));
+                    att.push((2 * i, hub));
+                    if rng.pct(15) {
+                        att.push((2 * i + 1, hub));
+                    }
+                }
+                att.push((hub, hub));
+                att.push((hub, hub + 1));
+                let mut n = hub + 2;
+                if rng.pct(40) {
+                    att.push((hub + 1, hub + 2));
+                    n += 1;
+                }
+                let g = crate::refsem::Abs::new(n, att);
+                if rng.pct(50) { g } else { gen::shuffle_labels(&g, &mut rng) }
+            } else if rng.pct(50) {
                 let g = gen::lattice(&mut rng, 13);
                 gen::shuffle_labels(&g, &mut rng)
             } else {
